@@ -23,7 +23,9 @@ if it returns one); a function that can raise returns `Except Err _`, raising ca
   sets / dicts  `x in s`, `x not in s`, `s.add(x)`, `d[k] = v`, `set(t)`, `len(…)`, `t.count(x)`, `tuple(…)`, `sorted(…, key=f)`,
                 generator / `filter(lambda …)` sources, `any(… for …)`, `max(a, b)` on a cached degree, `max(s)`, `.copy()` of an
                 attribute (value semantics), `self.get(k, 0)`, `self.pop(k, 0)`, `-float("inf")`, `"__a%d" % n`
-  control       `if/elif/else`, `for` (foldl / pyForM; `for i in filter(lambda x: c, it)` is the lazy reading
+  helpers       `self.m(x, ..)` as a statement, `m` a method of the same class that is not tied (e.g. `_register_term`): inlined,
+                parameters renamed to the argument variables (`inline_method`)
+  control       `if c: continue` in a loop body (the rest of the body is the else-branch), `if/elif/else`, `for` (foldl / pyForM; `for i in filter(lambda x: c, it)` is the lazy reading
                 `for i in it: if c[i/x]`), `return`, `raise KeyError(…)`, `a if c else b`, `f or e`, `not/and/or`, comparisons
 """
 import ast
@@ -728,8 +730,8 @@ class FnExt(T.Fn):
                         continue
                     out += self.store_target(tg, "_py_t%d" % i, tv, env2, s) + "\n" + pad
                 return out + cont(env2)
-            if isinstance(t0, ast.Subscript) and self.is_self_attr(t0.value) and t0.value.attr in ("_mapping", "_reverse_mapping"):
-                f, tf = FIELDS[t0.value.attr]
+            if isinstance(t0, ast.Subscript) and self.as_attr(t0.value, env) in ("_mapping", "_reverse_mapping"):
+                f, tf = FIELDS[self.as_attr(t0.value, env)]      # directly or through an alias local (`m = self._mapping`)
                 kk, tk = self.expr(t0.slice, env)
                 v, tv = self.expr(s.value, env)
                 kt, vt = ("Var", "Nat") if tf == "Map" else ("Nat", "Var")
@@ -830,6 +832,9 @@ class FnExt(T.Fn):
                 if c.args:
                     raise Untranslatable("self.__init__ with arguments", node)
                 return self.proc_call(info, [("none", "None")], node, extra=["self.kind"])(pad + cont())
+            inl = self.inline_method(m, c, env, node)
+            if inl is not None:
+                return self.block(inl, env, lambda e2: cont(e2), len(pad))
             raise Untranslatable("statement call self.%s" % m, node)
         if self.as_attr(recv, env) == "_variables" and m == "add" and len(c.args) == 1:
             a, ta = self.expr(c.args[0], env)
@@ -845,11 +850,62 @@ class FnExt(T.Fn):
                 self.coerce(kk, tk, "Rel", node), self.coerce(v, tv, "Poly", node)), "Cons", node) + "\n" + pad + cont()
         raise Untranslatable("statement call .%s" % m, node)
 
+    @staticmethod
+    def no_continue(body):
+        """`if c: continue` directly among the statements of a loop body: the rest of the body is its else-branch"""
+        for i, x in enumerate(body):
+            if isinstance(x, ast.If) and not x.orelse and len(x.body) == 1 and isinstance(x.body[0], ast.Continue):
+                rest = FnExt.no_continue(body[i + 1:])
+                return body[:i] + [ast.If(test=x.test, body=[ast.Pass(lineno=x.lineno)], orelse=rest or [ast.Pass(lineno=x.lineno)],
+                                          lineno=x.lineno)]
+        return body
+
+    def inline_method(self, m, c, env, node):
+        """`self.m(x, ..)` as a statement where `m` is a method of the class this function is written in that is not part
+        of the tie: its statements with each parameter renamed to its argument (arguments must be variables; the helper
+        must not `return`, and the locals it binds must be new names here) — None when `m` is not such a method"""
+        import copy
+        if self.how != "method" or c.keywords:
+            return None
+        try:
+            tgt = self_target(self.cls, m)
+        except Untranslatable:
+            return None
+        if tgt != self.cls or tgt not in CLASSES or ("%s.%s" % (tgt, m)) in self.table:
+            return None
+        hits = [x for x in _class_node(tgt).body if isinstance(x, ast.FunctionDef) and x.name == m]
+        if len(hits) != 1:
+            return None
+        h, a = hits[0], hits[0].args
+        if h.decorator_list or a.vararg or a.kwarg or a.kwonlyargs or a.posonlyargs or a.defaults or not a.args:
+            return None
+        params = [x.arg for x in a.args]
+        if len(params) - 1 != len(c.args) or not all(isinstance(x, ast.Name) and x.id in env for x in c.args):
+            raise Untranslatable("call of the untied method %s with arguments that are not variables" % m, node)
+        body = [x for x in h.body if not (isinstance(x, ast.Expr) and isinstance(x.value, ast.Constant)
+                                          and isinstance(x.value.value, str))]
+        ren = dict(zip(params, ["self"] + [x.id for x in c.args]))
+        for x in body:
+            for y in ast.walk(x):
+                if isinstance(y, (ast.Return, ast.Yield, ast.YieldFrom, ast.Global, ast.Nonlocal, ast.FunctionDef)):
+                    raise Untranslatable("untied method %s with a return / nested function" % m, node)
+                if isinstance(y, ast.Name) and isinstance(y.ctx, ast.Store) and (y.id in env or y.id in ren):
+                    raise Untranslatable("untied method %s binds `%s`, a name of its caller" % (m, y.id), node)
+                if isinstance(y, ast.Name) and isinstance(y.ctx, ast.Load) and y.id not in ren and y.id in env \
+                        and y.id not in self.assigned(body):
+                    raise Untranslatable("untied method %s reads the global `%s`, a local of its caller" % (m, y.id), node)
+        out = copy.deepcopy(body)
+        for x in out:
+            for y in ast.walk(x):
+                if isinstance(y, ast.Name) and y.id in ren:
+                    y.id = ren[y.id]
+        return out
+
     def for_(self, s, env, cont, ind):
         pad = " " * ind
-        if s.orelse or any(isinstance(x, (ast.Return, ast.Break, ast.Continue)) for b in s.body for x in ast.walk(b)):
+        it, body, target = s.iter, self.no_continue(list(s.body)), s.target
+        if s.orelse or any(isinstance(x, (ast.Return, ast.Break, ast.Continue)) for b in body for x in ast.walk(b)):
             raise Untranslatable("for with else / return / break / continue", s)
-        it, body, target = s.iter, list(s.body), s.target
         if isinstance(it, ast.Call) and isinstance(it.func, ast.Name) and it.func.id == "filter" and len(it.args) == 2 \
                 and isinstance(it.args[0], ast.Lambda) and "filter" not in self.module_names() and isinstance(target, ast.Name):
             lam = it.args[0]
